@@ -128,7 +128,7 @@ func (it *vsIter) SetErrorCallback(f func(err error)) {}
 
 // ---- bucket construction through the real code ---------------------------------------------------------------
 
-var vsNames = []string{"a", "ab", "b", "1", "2", "a_b", "b_1"}
+var vsNames = []string{"a", "ab", "b", "1", "2", "3", "a2", "a3", "a_b"}
 
 // vsBucket builds a bucket of depth 1..3 with names drawn by vsFork from the adversarial candidate set.
 func vsBucket(tx *LDBTransaction, label string) *LDBBucket {
@@ -299,9 +299,10 @@ func VsH_TxWrapper() {
 	vsTheTx = &vsTx{&commits, &rollbacks, cerr}
 	d := &vsDB{beginErr: vsNondetBool("begin_fails")}
 	var ferr error
-	if vsNondetBool("closure_fails") {
-		ferr = errors.New("closure")
-	}
+	sentinels := []error{nil, errors.New("closure"), db.ErrFileExist, db.ErrFileNotExist, db.ErrBucketExist, db.ErrBucketNotFound, db.ErrInvalidBucketName,
+		db.ErrIllegalKey, db.ErrIllegalValue, db.ErrNotSupported, db.ErrIllegalBucketPath, db.ErrInvalidArgument, db.ErrWriteNotAllowed,
+		db.ErrDbUnknownType, db.ErrOpenDBFailed, db.ErrCreateDBFailed, leveldb.ErrNotFound}
+	ferr = sentinels[vsFork(len(sentinels), "closure.err")]
 	ran := false
 	if vsFork(2, "kind") == 0 {
 		err := db.Update(d, func(tx db.DBTransaction) error { ran = true; return ferr })
@@ -320,4 +321,46 @@ func VsH_TxWrapper() {
 		}
 	}
 	vsReach("tx-end")
+}
+
+// VsH_DeleteBucket: removing child c1 of parent P erases exactly c1's subtree (its entries, its index entry, its
+// children) and leaves every sibling c2 (names may be prefixes of one another) and the parent's own entries intact.
+func VsH_DeleteBucket() {
+	vsStore, vsBatchDel = nil, nil
+	tx := &LDBTransaction{}
+	parent := vsBucket(tx, "p")
+	n1 := vsNames[vsFork(len(vsNames), "c1")]
+	n2 := vsNames[vsFork(len(vsNames), "c2")]
+	if n1 == n2 {
+		return
+	}
+	b1, err1 := parent.NewBucket(n1)
+	b2, err2 := parent.NewBucket(n2)
+	vsAssume(err1 == nil && err2 == nil)
+	// keys containing the separator (the bucket structure is what varies here; arbitrary keys are covered by layout/map_ops)
+	k1, k2, kp := []byte("x_1"), []byte("_"), []byte(n1+"_x")
+	vsAssume(b1.Put(k1, []byte{1}) == nil && b2.Put(k2, []byte{2}) == nil && parent.Put(kp, []byte{3}) == nil)
+	// a grandchild under c1 and under c2
+	g1, e1 := b1.NewBucket(vsNames[0])
+	g2, e2 := b2.NewBucket(vsNames[0])
+	vsAssume(e1 == nil && e2 == nil)
+	vsAssume(g1.Put([]byte("x"), []byte{4}) == nil && g2.Put([]byte("x"), []byte{5}) == nil)
+
+	vsAssert(parent.DeleteBucket(n1) == nil, "deletebucket-ok")
+
+	vsAssert(parent.Bucket(n1) == nil, "deleted-bucket-is-gone")
+	v1, _ := b1.Get(k1)
+	vsAssert(v1 == nil, "deleted-bucket-entries-are-gone")
+	vg1, _ := g1.Get([]byte("x"))
+	vsAssert(vg1 == nil, "deleted-bucket-children-are-gone")
+	vsAssert(parent.Bucket(n2) != nil, "sibling-bucket-survives")
+	v2, _ := b2.Get(k2)
+	vsAssert(len(v2) == 1 && v2[0] == 2, "sibling-entries-survive")
+	vg2, _ := g2.Get([]byte("x"))
+	vsAssert(len(vg2) == 1 && vg2[0] == 5, "sibling-children-survive")
+	vp, _ := parent.Get(kp)
+	vsAssert(len(vp) == 1 && vp[0] == 3, "parent-entries-survive")
+	names, err := parent.BucketNames()
+	vsAssert(err == nil && len(names) == 1 && names[0] == n2, "parent-lists-exactly-the-remaining-child")
+	vsReach("deleted")
 }
